@@ -443,3 +443,47 @@ def has_pattern(node_or_text, pattern, flatten=False):
         t = t.replace('(', '').replace(')', '')
         p = p.replace('(', '').replace(')', '')
     return pattern_regex(p).search(t) is not None
+
+
+# --------------------------------------------------------------------------
+# local-name-independent text (finding keys must survive a local rename)
+def local_names(fnode):
+    """Names bound inside a function (assignments, for/with/except targets,
+    comprehension variables), excluding its parameters."""
+    a = fnode.args
+    params = {x.arg for x in a.args + a.kwonlyargs + a.posonlyargs}
+    if a.vararg:
+        params.add(a.vararg.arg)
+    if a.kwarg:
+        params.add(a.kwarg.arg)
+    out = set()
+    for n in ast.walk(fnode):
+        if isinstance(n, ast.Name) and isinstance(n.ctx, (ast.Store, ast.Del)):
+            out.add(n.id)
+        elif isinstance(n, ast.ExceptHandler) and n.name:
+            out.add(n.name)
+    return out - params
+
+
+def alpha_text(text_or_node, fnode):
+    """Text in which every local variable of fnode is replaced by '$'.  For an
+    AST node the replacement is done on Name nodes (exact); for a string it is
+    a word-boundary regex (not attribute names, not keyword-argument names)."""
+    import copy
+    names = local_names(fnode)
+    if not isinstance(text_or_node, str):
+        if not names:
+            return norm_text(text_or_node)
+        node = copy.deepcopy(text_or_node)
+        for n in ast.walk(node):
+            if isinstance(n, ast.Name) and n.id in names:
+                n.id = '$'
+            elif isinstance(n, ast.ExceptHandler) and n.name in names:
+                n.name = '$'
+        return norm_text(node)
+    text = text_or_node
+    if not names:
+        return text
+    rx = _re.compile(r'(?<![\w.])(%s)\b(?!\s*=(?!=))' % '|'.join(
+        sorted((_re.escape(n) for n in names), key=len, reverse=True)))
+    return rx.sub('$', text)
